@@ -131,6 +131,21 @@ reg('C12', 'Hypothesis generated multi-probe inputs vs block-structure oracle (k
     'merged numbering, block-diagonal matrices, parameters. The recorded finding F13 is excluded '
     'from generation (counted) and pinned by a witness case.', TRUST + DS + MRG)
 
+reg('C13', 'Hypothesis generated dense datasets through the real ALF exporter vs file-set predicate, reload oracle and hashes',
+    'Generated dense datasets (raw or not, features, curated or not with unused ids anywhere, '
+    'optional rename-table files, (n,1) vectors, labels, unit factors) are converted; the output '
+    'file set is checked family by family (first dimensions, unique identifiers, label placement, '
+    'every .npy loads), the model returned for the output is compared with the source arrays, the '
+    'same-directory refusal is exercised, and SHA-256 hashes decide the source-untouched clause.',
+    TRUST + DS + ' Feature stores hold all spikes. mtscomp.')
+reg('C14', 'Hypothesis generated single and Merger-produced datasets through the real ALF exporter vs formula oracle',
+    'Single datasets and datasets produced by the real Merger from 1-4 generated probes are '
+    'exported; every exported quantity (rescaled unwhitened waveforms on admissible nearest '
+    'same-probe channel lists, spike/template/cluster amplitudes with the unit factor, peak '
+    'channels, depths, durations, per-probe raw indices) is recomputed from the source files with '
+    'direct formulas and compared within float32 tolerance, with don\'t-care handling of distance '
+    'ties and of the L1/L2 metric.', TRUST + DS + MRG + ' float32 storage (rtol 1e-4).')
+
 
 def main():
     props = [json.loads(l) for l in (HERE / 'properties.jsonl').read_text().splitlines() if l.strip()]
